@@ -752,6 +752,11 @@ func vfGenConcCase(t *rapid.T, p *vfConcProfile, maxG int) *vfConcCase {
 		c.KeyType = "string"
 		c.HashMode = rapid.SampledFrom([]string{"collide1", "collide2", "collide3", "distinct"}).Draw(t, "hashmode")
 	}
+	if p.id == "C02" && rapid.IntRange(0, 3).Draw(t, "c02collide") == 0 {
+		// staleness must also hold between keys that collide on the primary hash (a Del of one must not report the other)
+		c.KeyType = "string"
+		c.HashMode = rapid.SampledFrom([]string{"collide1", "collide2", "collide3"}).Draw(t, "hashmode")
+	}
 	if p.id == "C01" {
 		c.KeyType = rapid.SampledFrom([]string{"uint64", "int", "int32", "uint32", "int64", "uint", "byte", "string", "string", "string", "bytes", "bytes", "bytes",
 			"named-string", "named-bytes", "named-uint64", "named-int"}).Draw(t, "keytype")
@@ -872,6 +877,10 @@ func vfGenConcCase(t *rapid.T, p *vfConcProfile, maxG int) *vfConcCase {
 					op.TTL = int64(rapid.IntRange(1, 3000).Draw(t, "ttlms")) * int64(time.Millisecond)
 				case 1:
 					op.TTL = int64(rapid.IntRange(1, 2000).Draw(t, "ttlus")) * int64(time.Microsecond)
+				case 3:
+					if p.id == "C07" {
+						op.TTL = rapid.SampledFrom([]int64{int64(time.Hour), 1<<63 - 1, 250 * 365 * 24 * int64(time.Hour)}).Draw(t, "longttl")
+					}
 				case 2:
 					if p.id == "C07" {
 						op.TTL = -1
